@@ -172,6 +172,14 @@ class Ctx(object):
     def Max(self, A):
         return self._extremum(A, 'max')
 
+    def Any(self, n, fn):
+        """exists 0 <= k < n: fn(k)  as a canonical named Boolean (axioms added by the solver)."""
+        j = fresh_int('j')
+        body = fn(Sc(j))
+        if isinstance(body, bool):
+            return band(body, compare('>', n, 0))
+        return wrap(sym.EXTREMA.atom(to_z3(n, 'int'), j, to_z3(body, 'bool'), 'any'))
+
     def _extremum(self, A, which):
         j = fresh_int('j')
         body = A[Sc(j)]
